@@ -682,8 +682,70 @@ def check_transition(src, new, op, res, cid, rep, params):
     return True
 
 
+ORDER_VALUES = [True, False, 1, 0, 2, 'all', 'block', 'none', ('all', 'all'), (False, False), (1, 1)]
+ORDER_EDITS = [  # (source, python expression of the edit with {T} = the trivia value)
+    ("x = [\n    # lead\n    a,  # ca\n    # pre b\n    b,  # cb\n    c,\n]\n", "f.body[0].value.put_slice(None, 1, 2, 'elts', trivia={T})"),
+    ("# c0\nx = 1  # c1\n\n# c2\ny = 2  # c3\nz = 3\n", "f.body[1].remove(trivia={T})"),
+    ("f(a,  # ca\n  # pre b\n  b,  # cb\n  k=c)\n", "f.body[0].value.args[1].remove(trivia={T})"),
+]
+_ORDER_SCRIPT = """
+import sys, json
+sys.path.insert(0, {src!r})
+from fst import FST
+out = []
+for val in {vals!r}:
+    row = []
+    for source, edit in {edits!r}:
+        f = FST(source, 'exec')
+        try:
+            eval(edit.replace('{{T}}', repr(val)))
+            row.append(f.src)
+        except Exception as e:
+            row.append('EXC:' + e.__class__.__name__)
+    out.append(row)
+print(json.dumps(out))
+"""
+
+
+def run_option_order(fst, vi, res):
+    """An option value given to one call must not colour a later call (nor depend on an earlier one): every edit is run in a fresh
+    interpreter with value v1 first and v2 second, and the second result is compared with a fresh interpreter in which v2 ran alone.
+    Values that compare equal across types (True == 1, False == 0) are different option values."""
+    import json
+    import os
+    import subprocess
+    import sys
+    repo_src = os.path.join(os.environ.get('PFSTMC_REPO', '/repo'), 'src')
+
+    def run(vals):
+        r = subprocess.run([sys.executable, '-X', 'utf8', '-c', _ORDER_SCRIPT.format(src=repo_src, vals=vals, edits=ORDER_EDITS)],
+                           capture_output=True, text=True, timeout=120, env=dict(os.environ, PYTHONHASHSEED='0'))
+        if r.returncode:
+            raise RuntimeError(r.stderr[-400:])
+        return json.loads(r.stdout)
+    v1 = ORDER_VALUES[vi]
+    solo = {repr(v): run([v])[0] for v in ORDER_VALUES}
+    for v2 in ORDER_VALUES:
+        if repr(v2) == repr(v1):
+            continue
+        cid = f'C04/optorder/{v1!r}->{v2!r}'
+        res.evals += 1
+        res.transitions += 2 * len(ORDER_EDITS)
+        res.traces += 1
+        got = run([v1, v2])
+        if got[0] != solo[repr(v1)] or got[1] != solo[repr(v2)]:
+            k = next(i for i in range(len(ORDER_EDITS)) if got[1][i] != solo[repr(v2)][i] or got[0][i] != solo[repr(v1)][i])
+            res.fail(cid, 'option-value-of-an-earlier-call-changes-a-later-call',
+                     f'edit={ORDER_EDITS[k][1]} on {ORDER_EDITS[k][0]!r}\nwith trivia={v2!r} after a call with trivia={v1!r}: {got[1][k]!r}\nalone: {solo[repr(v2)][k]!r}',
+                     {'optorder': True}, {'optorder': vi})
+        else:
+            res.nontriv('optorder', repr(v1), repr(v2))
+            res.outcomes['optorder-ok'] += 1
+
+
 def shards(tier):
-    out = [{'prog': i, 'oi': oi, 'depth': 1} for i in range(len(PROGS)) for oi in range(len(OPTS))]
+    out = [{'optorder': v} for v in range(len(ORDER_VALUES))]
+    out += [{'prog': i, 'oi': oi, 'depth': 1} for i in range(len(PROGS)) for oi in range(len(OPTS))]
     # a comment rewritten in place (no node moves) followed by every edit: stale extents of enclosing blocks show up here
     out += [{'prog': i, 'oi': 0, 'depth': 2, 'lc_first': True} for i in LC_PROGS]
     if tier == 'thorough':
@@ -693,6 +755,9 @@ def shards(tier):
 
 def run_shard(desc, tier, res):
     import fst
+    if 'optorder' in desc:
+        run_option_order(fst, desc['optorder'], res)
+        return
     src0 = PROGS[desc['prog']]
     opt = OPTS[desc['oi']]
     a1 = dict(nk=2 if tier == 'quick' else 4, nks=2, forms=('src',) if tier == 'quick' else ('src', 'ast', 'fst'), opts=(opt,), kinds=KINDS)
@@ -718,6 +783,9 @@ def run_shard(desc, tier, res):
 
 def replay(rep, res):
     import fst
+    if 'optorder' in rep:
+        run_option_order(fst, rep['optorder'], res)
+        return
     root = fst.FST(rep['src'], 'exec')
     pre = rep['src']
     for op in rep['hist']:
